@@ -15,6 +15,14 @@ class ToolError(Exception):
     """The machinery failed (build error, TLC error, timeout): exit code 2, never a verdict."""
 
 
+class HarnessPanic(Exception):
+    """A harness binary died with a Rust panic (exit code 101) outside its catch_unwind guards: on the unchanged tree this never
+    happens, so it is reported as a violation (a change to the code under test made code panic that the harness relies on)."""
+    def __init__(self, bin_name, output):
+        super().__init__('%s panicked' % bin_name)
+        self.bin_name, self.output = bin_name, output
+
+
 def seed():
     try:
         return int(os.environ.get('VERIF_SEED', '1'))
@@ -75,6 +83,8 @@ def cargo_build(bin_name, package=None):
 def run_bin(bin_name, args, timeout=3600, env=None, log=None, package=None):
     path = cargo_build(bin_name, package)
     rc, out, dt = run([path] + [str(a) for a in args], cwd=ROOT, env=env, timeout=timeout, log=log)
+    if rc == 101:
+        raise HarnessPanic(bin_name, out)
     if rc != 0:
         raise ToolError('%s exited %s:\n%s' % (bin_name, rc, '\n'.join(out.splitlines()[-30:])))
     return out, dt
